@@ -60,6 +60,7 @@ fn main() {
         "tag" => names::tag(&args[1..]),
         "recv" => conn::recv(&args[1..]),
         "sendlist" => conn::sendlist(&args[1..]),
+        "shorthand" => conn::shorthand(&args[1..]),
         "client" => client::client(&args[1..]),
         "resp" => resp::resp(&args[1..]),
         "cmd" => cmds::cmd(&args[1..]),
